@@ -455,6 +455,7 @@ func (cache *dirCache) clean(highWaterMark, lowWaterMark uint64) uint64 {
 
 		log.Debug("Cleaning %s, accessed %s, saves %s", entry.Path, humanize.Time(time.Unix(entry.Atime, 0)), humanize.Bytes(entry.Size))
 		// Try to rename the directory first so we don't delete bits while someone might access them.
+		verifOp("clean-evict", entry.Path)
 		newPath := entry.Path + "="
 		if err := os.Rename(entry.Path, newPath); err != nil {
 			log.Errorf("Couldn't rename %s: %s", entry.Path, err)
